@@ -9,6 +9,7 @@ import PySpikeVerif.Proofs.Basic
 import Mathlib.Data.List.Basic
 import PySpikeVerif.Proofs.FilterLaws
 import PySpikeVerif.Proofs.SyncScan
+import PySpikeVerif.Proofs.ProfileAtTime
 
 namespace PySpike.C17
 open PySpike
@@ -124,5 +125,46 @@ theorem indicator_is_profile_definition (s1 s2 : List Q) (ts te mt m : Q)
     coincSingle s1 s2 ts te mt m
       = s1.map fun a => if s2.any (fun b => decide (Coinc s1 s2 (trueMax ts te mt) m a b)) then 1 else 0 :=
   coincSingle_eq_spec s1 s2 ts te mt m h1 h2
+
+/-! ## the filter's per-spike fraction is the multivariate SPIKE-Sync profile at that spike's time
+    (work package C4) -/
+
+/-- the bivariate SPIKE-Sync profile at any time `t`: (2,2) where both trains spike, (indicator, 1)
+    where one does, (0,0) elsewhere — `C4_ind` is the filter's per-spike indicator -/
+theorem pair_profile_at_time (kw : Kw) (a b : Train) (hr : kw.recon = false)
+    (ha : StrictSorted a.spikes) (hb : StrictSorted b.spikes) (t : Q) :
+    (syncProfileBi kw a b).at t =
+      if t ∈ a.spikes ∧ t ∈ b.spikes then (2, 2)
+      else if t ∈ a.spikes then
+        (C4_ind a.spikes b.spikes (trueMax a.ts a.te kw.maxTau) kw.mrts t, 1)
+      else if t ∈ b.spikes then
+        (C4_ind b.spikes a.spikes (trueMax a.ts a.te kw.maxTau) kw.mrts t, 1)
+      else (0, 0) := C4_pair_profile_at kw a b hr ha hb t
+
+/-- the multivariate profile at any time `t`: value = sum of the filter's coincidence counts of the
+    trains spiking at `t`, multiplicity = (number of trains spiking at `t`) · (N − 1) -/
+theorem multi_profile_at_time (kw : Kw) (L : List Train) (ts te : Q) (hr : kw.recon = false)
+    (h2 : 2 ≤ L.length) (hlt : ts < te)
+    (hL : ∀ s ∈ L, s.ts = ts ∧ s.te = te ∧ StrictSorted s.spikes) (t : Q) :
+    (syncProfileMulti kw none L).at t =
+      (((C4_trainsAt L t).map fun i => C4_countAt kw L i t).sum,
+       ((C4_trainsAt L t).length : Q) * ((L.length : Q) - 1)) :=
+  profile_at_time kw L ts te hr h2 hlt hL t
+
+/-- the filter keeps a spike (that no other train shares) exactly when the multivariate profile
+    at its time exceeds the threshold: value > threshold · multiplicity -/
+theorem kept_iff_profile_above_threshold (kw : Kw) (thr : Q) (L : List Train) (ts te : Q)
+    (hr : kw.recon = false) (h2 : 2 ≤ L.length) (hlt : ts < te)
+    (hL : ∀ s ∈ L, s.ts = ts ∧ s.te = te ∧ StrictSorted s.spikes)
+    (i : Nat) (hi : i < L.length) (k : Nat) (hk : k < (tr L i).spikes.length)
+    (hother : ∀ j, j < L.length → j ≠ i → (tr L i).spikes[k] ∉ (tr L j).spikes) :
+    (tr L i).spikes[k] ∈ (tr (filterBySync kw thr L).1 i).spikes ↔
+      ((syncProfileMulti kw none L).at ((tr L i).spikes[k])).1
+        > thr * ((syncProfileMulti kw none L).at ((tr L i).spikes[k])).2 :=
+  C4_filter_keeps_iff_profile_fraction kw thr L ts te hr h2 hlt hL i hi k hk hother
+
+example : ({ recon := false } : Kw).recon = false ∧ 2 ≤ C4_exL.length ∧ (0 : Q) < 6 ∧
+    ∀ s ∈ C4_exL, s.ts = 0 ∧ s.te = 6 ∧ StrictSorted s.spikes :=
+  ⟨rfl, by decide, by norm_num, C4_exL_ok⟩
 
 end PySpike.C17
